@@ -413,6 +413,81 @@ def _worker_specs(arg) -> Acc:
     return acc
 
 
+class _Interrupt(BaseException):
+    """Models an interruption (Ctrl-C, timeout signal): not an Exception, so the library cannot swallow it."""
+
+
+class _InterruptingDecisions(env.Decisions):
+    """Answers 0 everywhere and raises _Interrupt at the k-th request to the random source."""
+
+    def __init__(self, k: int) -> None:
+        super().__init__(())
+        self.k = k
+        self.calls = 0
+
+    def pick(self, kk: int, kind: str) -> int:
+        self.calls += 1
+        if self.calls - 1 == self.k:
+            raise _Interrupt()
+        return super().pick(kk, kind)
+
+
+SANITY_LENGTH = 2
+
+
+def after_interrupted_sanity_check(acc: Acc, cfg, tier: str) -> None:
+    """(iii) a history: spec.sanity_check interrupted at its k-th request to the random source
+    (every k), then sampling from the same specification object must still be exactly uniform."""
+    horizon = 60 if tier == "quick" else 150
+    k = 0
+    while k < 400:
+        ex = execute(cfg, (), slice_default=0, horizon=horizon)
+        if ex.outcome != "spec":
+            return
+        ensure_seams()
+        dec = _InterruptingDecisions(k)
+        _SW_DEC.cur = dec
+        interrupted = False
+        try:
+            with deadline(60):
+                ex.spec.sanity_check(SANITY_LENGTH)
+        except _Interrupt:
+            interrupted = True
+        except Exception:  # noqa: BLE001  (a failing or unsupported sanity check is not this property's business)
+            return
+        finally:
+            _SW_DEC.cur = env.Decisions(())
+        if not interrupted:
+            acc.notes["sanity_interruption_points"] = acc.notes.get("sanity_interruption_points", 0) + k
+            return
+        payload = {"kind": "sanity-interrupt", "cfg": cfg.to_json(), "tier": tier, "k": k}
+        before = len(acc.violations)
+        end_to_end(acc, cfg, ex.spec, 2 if tier == "quick" else 3, 40000, payload)
+        if len(acc.violations) > before:
+            for v in acc.violations[before:]:
+                v["detail"] = f"after spec.sanity_check({SANITY_LENGTH}) was interrupted at its {k}-th request to the random source: " + v["detail"]
+            return
+        acc.nt((cfg.sid(), "sanity-interrupt", k))
+        k += 1
+
+
+def _worker_sanity(arg) -> Acc:
+    cfgj, tier = arg
+    cfg = Cfg.from_json(cfgj)
+    acc = Acc()
+    after_interrupted_sanity_check(acc, cfg, tier)
+    env.clear_library_caches()
+    dw._BF_CACHE.clear()
+    dg._TREES.clear()
+    return acc
+
+
+def sanity_configs(tier: str) -> List[Any]:
+    cfgs = [c for c in spec_configs(tier) if c.db == "RuleDB" and c.pack in ("base", "g", "norm+sym")]
+    step = max(1, len(cfgs) // (16 if tier == "quick" else 80))
+    return cfgs[::step]
+
+
 def spec_configs(tier: str) -> List[Any]:
     cfgs = [c for c in lattice(tier) if not getattr(c, "debug", False) and not getattr(c, "smallest", False)]
     if tier == "quick":
@@ -427,6 +502,7 @@ def run(ctx: Ctx) -> None:
         "(i) every rule form with a sampler (plain, equivalence, equivalence paths; W and G families), every (size, parameters) "
         "with count c > 0, every value 1..c of the top-level draw, every pick of the stub sub-samplers and of the final choice; "
         "(ii) every decision sequence of the real nested samplers of the corpus specifications for sizes <= 3 (4); "
+        "(iii) for a sub-family of the corpus, spec.sanity_check interrupted at every one of its requests to the random source, then (ii) on the same object; "
         "a trace is one complete decision sequence; non-trivial = distinct (rule form, size, parameters) / (specification, size, "
         "parameters) whose exact distribution was computed"
     )
@@ -445,11 +521,18 @@ def run(ctx: Ctx) -> None:
     ctx.bounds = {"form_sizes": 4 if ctx.quick else 5, "end_to_end_sizes": 3 if ctx.quick else 4, "end_to_end_configurations": len(cfgs),
                   "leaf_cap": 40000 if ctx.quick else 400000}
     ctx.pmap(_worker_specs, [(c.to_json(), ctx.tier) for c in cfgs], chunksize=4)
+    scfgs = sanity_configs(ctx.tier)
+    ctx.bounds["interrupted_sanity_check_configurations"] = len(scfgs)
+    ctx.pmap(_worker_sanity, [(c.to_json(), ctx.tier) for c in scfgs])
+    ctx.bounds["sanity_interruption_points"] = ctx.acc.notes.pop("sanity_interruption_points", 0)
     ctx.acc.n["states"] = len(ctx.acc.nontrivial)
 
 
 def replay(acc: Acc, payload: dict) -> None:
     ensure_seams()
+    if payload.get("kind") == "sanity-interrupt":
+        after_interrupted_sanity_check(acc, Cfg.from_json(payload["cfg"]), payload["tier"])
+        return
     if payload.get("kind") == "spec":
         cfg = Cfg.from_json(payload["cfg"])
         ex = execute(cfg, (), slice_default=0, horizon=payload["horizon"])
